@@ -101,12 +101,32 @@ def pat_ren(arm):
     return ren
 
 
-def arm_ren(arm):
-    """local name -> canonical text: struct-pattern fields get `$field`, simple `let x = e` are inlined in source order"""
+def inst_alt(init, inst, ren):
+    """`match <x> { Instruction::<inst> { fields } => value, .. }` evaluated for one alternative of an or-pattern arm:
+    the rendered value of the `inst` arm with its pattern fields as `$field`; None if `init` is not such a match"""
+    if inst is None or init.get("k") != "match":
+        return None
+    hit = [a for a in synq.arms(init) if any(h.endswith("Instruction::" + inst) for h in a.heads) and a.guard is None]
+    if len(hit) != 1 or len(hit[0].alts) != 1:
+        return None
+    r2 = dict(ren)
+    r2.update(pat_ren(hit[0]))
+    b = hit[0].body
+    while b.get("k") == "block" and len(b["stmts"]) == 1 and b["stmts"][0].get("k") == "expr_stmt" and not b["stmts"][0].get("semi"):
+        b = b["stmts"][0]["e"]
+    if b.get("k") == "block":
+        return None
+    return render(b, r2)
+
+
+def arm_ren(arm, inst=None):
+    """local name -> canonical text: struct-pattern fields get `$field`, simple `let x = e` are inlined in source order;
+    for an or-pattern arm, an inner `match` over the instruction is resolved for the alternative `inst`"""
     ren = pat_ren(arm)
     for nm, init, st in synq.bindings(arm.body):
         if init is not None and st["pat"].get("k") == "p_ident" and st["pat"]["name"] == nm:
-            ren[nm] = render(init, ren)
+            v = inst_alt(init, inst, ren)
+            ren[nm] = v if v is not None else render(init, ren)
     return ren
 
 
@@ -430,7 +450,7 @@ def r11_3_templates(rep):
         if len(arms) != 1:
             raise AnchorMissing(f"emit: {len(arms)} arms for Instruction::{inst}")
         a = arms[0]
-        ren = arm_ren(a)
+        ren = arm_ren(a, inst)
         tms = templates(a.body)
         frees = [t for t in tms if FREE.search(t.text)]
         nfree += len(frees)
@@ -758,6 +778,32 @@ def first_id_origin(dl, lp, tyv, named, letc, use):
     return True, f"`{d['path']}` is the TypeId recorded first in `prim_names` for the same C name"
 
 
+def payload_guards(body, node):
+    """pattern conditions under which `node` is reached inside `body`: enclosing `if let P = e { .. node .. }` and preceding
+    `let P = e else { <diverges> };` statements.  -> [("let <head> = <e>", [names bound])]"""
+    out = []
+    for n in synq.walk(body):
+        if n.get("k") == "if" and contains(n["then"], node):
+            for c in conjuncts(n["cond"]):
+                if c.get("k") == "let_cond":
+                    out.append((f"let {synq.pat_head(c['pat']).split('::')[-1]} = {render(c['e'])}",
+                                [x["name"] for x in synq.walk(c["pat"]) if x.get("k") == "p_ident"]))
+                else:
+                    out.append((render(c), []))
+        if n.get("k") == "block":
+            st = n["stmts"]
+            at = next((i for i, s_ in enumerate(st) if contains(s_, node)), None)
+            if at is None:
+                continue
+            for s_ in st[:at]:
+                if s_.get("k") == "let" and s_.get("else") is not None and s_.get("init") is not None and \
+                        any(x.get("k") in ("continue", "return", "break") or (x.get("k") == "other" and x.get("src", "").strip() in ("continue", "break"))
+                            or (x.get("k") == "macro" and synq.short(x["name"]) in ("unreachable", "panic")) for x in synq.walk(s_["else"])):
+                    out.append((f"let {synq.pat_head(s_['pat']).split('::')[-1]} = {render(s_['init'])}",
+                                [x["name"] for x in synq.walk(s_["pat"]) if x.get("k") == "p_ident"]))
+    return out
+
+
 def r11_3_helpers(rep):
     core = synq.find_fn(ABI, "needs_deallocate")
     rep.saw(f"{ABI}::needs_deallocate")
@@ -819,15 +865,59 @@ def r11_3_helpers(rep):
            len(ins) == 1 and mi is not None and ii and ii[0] > mi and render(ins[0]["args"][0]) == idp[0],
            f"dtor_funcs.insert at statement {ii}, table at statement {mi}", f.loc(ins[0]) if ins else f.loc())
     # a helper exists iff its body is non-empty
-    empt = [n for n in synq.walk(f.body) if n.get("k") == "if" and re.search(r"==\s*self\.src\.c_helpers\.len\(\)", render(n["cond"]))]
-    ok = False
-    if len(empt) == 1:
-        th = empt[0]["then"]
-        tr = [render(c) for c in synq.method_calls(th, "truncate")]
-        ok = len(tr) == 2 and any(".c_helpers" in t for t in tr) and any(".h_helpers" in t for t in tr) and \
-            any(n.get("k") == "return" for n in synq.walk(th)) and ii and next((i for i, s in enumerate(f.body["stmts"]) if contains(s, empt[0])), 99) < ii[0]
+    ok, det = False, "0 emptiness test(s)"
+    tests = []
+    for n in synq.walk(f.body):
+        if n.get("k") != "if":
+            continue
+        c0, neg = n["cond"], False
+        for _ in range(6):
+            while c0.get("k") == "paren":
+                c0 = c0["e"]
+            if c0.get("k") == "unary" and c0["op"] == "!":
+                c0, neg = c0["e"], not neg
+            elif c0.get("k") == "path" and "::" not in c0["path"]:
+                lb = lookup(f.node, c0["path"], n)
+                if lb and lb[0] == "let" and lb[1].get("init") is not None and lb[1]["pat"].get("k") == "p_ident":
+                    c0 = lb[1]["init"]
+                else:
+                    break
+            else:
+                break
+        if c0.get("k") != "binary" or c0["op"] not in ("==", "!="):
+            continue
+        sides = []
+        for sd in (c0["l"], c0["r"]):
+            r_ = render(sd)
+            if sd.get("k") == "path" and "::" not in sd["path"]:
+                lb = lookup(f.node, sd["path"], n)
+                if lb and lb[0] == "let" and lb[1].get("init") is not None:
+                    r_ = "start:" + render(lb[1]["init"]) + ("" if mi is not None and any(
+                        lb[1] is s_ for s_ in f.body["stmts"][:mi]) else ":late")
+            sides.append(r_)
+        LEN = "self.src.c_helpers.len()"
+        if sorted(sides) != sorted([LEN, "start:" + LEN]):
+            continue
+        empty_is_then = (c0["op"] == "==") != neg
+        tests.append((n, n["then"] if empty_is_then else n.get("else"), n.get("else") if empty_is_then else n["then"]))
+    if len(tests) == 1:
+        n, eb, nb = tests[0]
+        det = "1 emptiness test(s)"
+        ti = next((i for i, s_ in enumerate(f.body["stmts"]) if contains(s_, n)), None)
+        if eb is not None and len(ins) == 1 and mi is not None and ti is not None and ti > mi:
+            tr = [render(c) for c in synq.method_calls(eb, "truncate")]
+            withdrawn = len(tr) == 2 and any(".c_helpers" in t for t in tr) and any(".h_helpers" in t for t in tr)
+            in_empty = contains(eb, ins[0])
+            in_nonempty = nb is not None and contains(nb, ins[0])
+            after = bool(ii) and ii[0] > ti and any(x.get("k") == "return" for x in synq.walk(eb))
+            ok = withdrawn and not in_empty and (in_nonempty or after)
+            det = f"empty body: truncates {len(tr)} buffer(s); registration " + \
+                ("inside the empty branch" if in_empty else "in the non-empty branch" if in_nonempty else
+                 "after an early return" if after else "reachable with an empty body")
+    else:
+        det = f"{len(tests)} emptiness test(s)"
     rep.ob("R11.3", "define_dtor: a helper with an empty body is withdrawn (declaration and definition) and not registered", ok,
-           f"{len(empt)} emptiness test(s)", f.loc(empt[0]) if empt else f.loc())
+           det, f.loc(tests[0][0]) if tests else f.loc())
     # ---- per-kind shape of the walking arms
     def arm_of(k):
         if k not in got:
@@ -897,7 +987,7 @@ def r11_3_helpers(rep):
         rep.ob("R11.3", f"define_dtor: {k}: frees a buffer {'exactly once' if k in ('List', 'Map') else 'never itself'}",
                nf == (1 if k in ("List", "Map") else 0), f"{nf} `free(` template(s)", f.loc(a.node))
     # components / binders used by the walking arms are the arm's own
-    for k, src in (("Record", r"^for \w+ in (\w+)\.fields\.iter\(\)"), ("Tuple", r"(\w+)\.types\.iter\(\)\.enumerate\(\)"),
+    for k, src in (("Record", r"^&?(\w+)\.fields(?:\.iter\(\))?$"), ("Tuple", r"(\w+)\.types\.iter\(\)\.enumerate\(\)"),
                    ("Variant", r"(\w+)\.cases\.iter\(\)\.enumerate\(\)")):
         a = arm_of(k)
         lp = [n for n in synq.walk(a.body) if n.get("k") == "for"]
@@ -912,10 +1002,10 @@ def r11_3_helpers(rep):
         iv = lp[0]["pat"]["elems"][0].get("name")
         case = [fm for fm in synq.fmts(lp[0]["body"]) if fm.template and re.search(r"case\s+\{\w*\}", fm.template)]
         hv = [render(e) if e is not None else key for kd, key, e, off in case[0].hole_exprs()] if len(case) == 1 else []
-        cond = [n for n in synq.walk(lp[0]["body"]) if n.get("k") == "if" and contains(n["then"], case[0].node)] if case else []
+        cond = payload_guards(lp[0]["body"], case[0].node) if case else []
         rep.ob("R11.3", "define_dtor: Variant: the case label is the case's index and exists only for cases with a payload",
-               hv == [iv] and len(cond) == 1 and re.match(r"^let Some = &?\w+\.ty$", render(cond[0]["cond"])) is not None,
-               f"label {hv}, index `{iv}`, condition {[render(c['cond']) for c in cond]}", f.loc(a.node))
+               hv == [iv] and len(cond) == 1 and re.match(r"^let Some = &?\w+\.ty$", cond[0][0]) is not None,
+               f"label {hv}, index `{iv}`, condition {[c[0] for c in cond]}", f.loc(a.node))
     # the place handed to self.free and the type handed to it belong to the same component
     def place_hole(a, call):
         """expression filling the hole of the C place passed to self.free (through a let-bound format! if needed)"""
@@ -944,10 +1034,10 @@ def r11_3_helpers(rep):
                 ok = ty == f"&{v}.ty" and hole == f"to_c_ident(&{v}.name)"
             elif k == "Variant":
                 v = pat["elems"][1].get("name") if pat.get("k") == "p_tuple" and len(pat["elems"]) == 2 else None
-                cond = [n for n in synq.walk(lp[0]["body"]) if n.get("k") == "if" and contains(n["then"], frees[0])]
-                bound = [x["name"] for c in cond for x in synq.walk(c["cond"]) if x.get("k") == "p_ident"]
+                cond = payload_guards(lp[0]["body"], frees[0])
+                bound = [x for c in cond for x in c[1]]
                 ok = v is not None and hole == f"to_c_ident(&{v}.name)" and ty in bound and \
-                    any(re.match(rf"^let Some = &?{re.escape(v)}\.ty$", render(c["cond"])) for c in cond)
+                    any(re.match(rf"^let Some = &?{re.escape(v)}\.ty$", c[0]) for c in cond)
             else:
                 i_, v = (pat["elems"][0].get("name"), pat["elems"][1].get("name")) if pat.get("k") == "p_tuple" and len(pat["elems"]) == 2 else (None, None)
                 ok = v is not None and ty == v and hole == i_
@@ -1169,9 +1259,12 @@ def r11_4(rep):
         drops = [n for n in synq.walk(a.body) if (n.get("k") == "field" and n["member"] == "drop_fn") or
                  (n.get("k") == "str" and re.search(r"_drop(_own|_borrow)?\s*\(", n["v"]))]
         if frees:
-            nrel += 1
-            rep.ob("R11.4", f"emit: arm {'|'.join(heads)} frees memory — only the GuestDeallocate* instructions may", set(heads) <= FREE_ARMS,
-                   f"{[x.strip()[:40] for x in frees]}", f.loc(a.node))
+            # one obligation per instruction of an or-pattern arm, except that a wrongly freeing arm keeps its joint name
+            groups = [[h] for h in heads] if set(heads) <= FREE_ARMS else [heads]
+            for hs_ in groups:
+                nrel += 1
+                rep.ob("R11.4", f"emit: arm {'|'.join(hs_)} frees memory — only the GuestDeallocate* instructions may", set(hs_) <= FREE_ARMS,
+                       f"{[x.strip()[:40] for x in frees]}", f.loc(a.node))
         if drops:
             nrel += 1
             g = render(a.guard) if a.guard is not None else ""
